@@ -1,4 +1,5 @@
 import Qryn.Prom.Select
+import Qryn.Proofs.BitSetQuery
 /-! Lemmas for matcher selection: the regenerated operator tables say what the model needs (these `decide`s
     are the tie to the Go switches), each condition means its matcher, and the bit-set query selects exactly
     the fingerprints every matcher is satisfied for. -/
@@ -50,18 +51,67 @@ theorem condsOf_spec (re : Bytes → Bytes → Bool) (ms : List Matcher) :
     intro r
     simp [hce r, hcse r]
 
-/-- f is selected by the direct reading: it occurs among admissible index rows matching some matcher, and
-    every matcher is satisfied by an admissible index row of f -/
-def Selected (re : Bytes → Bytes → Bool) (fromDate : Bytes) (tp : Int) (ms : List Matcher)
+/-! ### matchers that accept the empty value -/
+theorem absentLabel_inverse : Gen.PromSelect.absentLabel = "inverse" := by decide
+/-- the value clauses of `optionalLabelsQuery` are those of the shared `StreamSelectPlanner` (one `condOf` serves both) -/
+theorem optClauses_eq : Gen.PromSelect.optClauses = Gen.PromSelect.opClauses := by decide
+
+theorem acceptsEmpty_eq (full : Bytes → Bytes → Bool) (m : Matcher) :
+    acceptsEmpty full m = opHolds full m.type [] m.val := by
+  simp [acceptsEmpty, absentLabel_inverse]
+
+theorem matcherVal_inverse (m : Matcher) : matcherVal { m with type := m.type.inverse } = matcherVal m := by
+  obtain ⟨n, t, v⟩ := m
+  cases t <;> simp only [matcherVal, MatchType.inverse, anchored_eq, anchored_ne, anchored_re, anchored_nre]
+
+/-- an index row satisfies the inverse matcher exactly when it is a row of the label that violates the matcher -/
+theorem rowSatisfies_inverse (re : Bytes → Bytes → Bool) (m : Matcher) (r : IdxRow) :
+    rowSatisfies re { m with type := m.type.inverse } r = (r.key == m.name && !opHolds re m.type r.val (matcherVal m)) := by
+  have hv := matcherVal_inverse m
+  obtain ⟨n, t, v⟩ := m
+  simp only [rowSatisfies, hv]
+  cases t <;> simp [MatchType.inverse, opHolds, bne]
+
+/-- f is selected by the direct reading: it has an admissible index row; every matcher that rejects the empty value is
+    satisfied by an admissible index row of f; and for every matcher that accepts the empty value no admissible index
+    row of f carrying the matcher's label violates it -/
+def Selected (re full : Bytes → Bytes → Bool) (fromDate : Bytes) (tp : Int) (ms : List Matcher)
     (tbl : List IdxRow) (f : Nat) : Prop :=
-  (∃ r ∈ tbl, r.fp = f ∧ admissible fromDate tp r = true ∧ ∃ m ∈ ms, rowSatisfies re m r = true) ∧
-  ∀ m ∈ ms, ∃ r ∈ tbl, r.fp = f ∧ admissible fromDate tp r = true ∧ rowSatisfies re m r = true
+  (∃ r ∈ tbl, r.fp = f ∧ admissible fromDate tp r = true) ∧
+  (∀ m ∈ ms, acceptsEmpty full m = false →
+    ∃ r ∈ tbl, r.fp = f ∧ admissible fromDate tp r = true ∧ rowSatisfies re m r = true) ∧
+  (∀ m ∈ ms, acceptsEmpty full m = true →
+    ∀ r ∈ tbl, r.fp = f → admissible fromDate tp r = true → r.key = m.name →
+      opHolds re m.type r.val (matcherVal m) = true)
 
 theorem havingConst_eq (n : Nat) (hn : n ≤ 63) (x : Nat) :
     (((x : Nat) : Int) == havingConst n) = true ↔ x = 2 ^ n - 1 := by
   have h1 : (2 ^ n : Nat) ≥ 1 := Nat.one_le_two_pow
   have h2 : ((2 ^ n : Nat) : Int) = (2 : Int) ^ n := by simp
   simp only [havingConst, hn, if_true, beq_iff_eq]
+  rw [← h2]
+  omega
+
+/-- for at most 63 matchers the Go `int64` holds the bit set exactly -/
+theorem requiredConst_eq (req : List Bool) (h : req.length ≤ 63) : requiredConst req = (bits req : Int) := by
+  have h1 : bitsW 64 req = bits req := bitsW_eq 64 req (by omega)
+  have h2 : bits req < 2 ^ 63 :=
+    Nat.lt_of_lt_of_le (bits_lt req) (Nat.pow_le_pow_right (by decide) h)
+  simp [requiredConst, h1, h2]
+
+/-- with every bit required the constant is the `(1<<n)−1` of the shared planner (the two Go paths render the same text) -/
+theorem requiredConst_all (n : Nat) (h : n ≤ 63) : requiredConst (List.replicate n true) = havingConst n := by
+  rw [requiredConst_eq _ (by simpa using h)]
+  have : bits (List.replicate n true) = 2 ^ n - 1 := by
+    induction n with
+    | zero => rfl
+    | succ k ih =>
+      have hk : 2 ^ k ≥ 1 := Nat.one_le_two_pow
+      simp only [List.replicate_succ, bits, Bool.toNat_true, ih (by omega), Nat.pow_succ]
+      omega
+  have h1 : (2 ^ n : Nat) ≥ 1 := Nat.one_le_two_pow
+  have h2 : ((2 ^ n : Nat) : Int) = (2 : Int) ^ n := by simp
+  simp only [this, havingConst, h, if_true]
   rw [← h2]
   omega
 
@@ -72,53 +122,109 @@ theorem getD_map_sat (re : Bytes → Bytes → Bool) (r : IdxRow) (ms : List Mat
   cases h : ms[i]? <;> simp
 
 /-- the bit-set query, evaluated over the index rows, selects exactly the fingerprints of the direct reading
-    — for at most `W` matchers (`W` = width of the shifted operand) and at most 63 (Go's `1<<n` on int64) -/
-theorem fpQuery_correct (re : Bytes → Bytes → Bool) (W : Nat) (table : String) (fromDate : Bytes) (tp : Int)
+    — for at most `W` matchers (`W` = width of the shifted operand) and at most 63 (Go's `1<<i` on int64) -/
+theorem fpQuery_correct (re full : Bytes → Bytes → Bool) (W : Nat) (table : String) (fromDate : Bytes) (tp : Int)
     (ms : List Matcher) (hW : ms.length ≤ W) (h63 : ms.length ≤ 63) (tbl : List IdxRow) (f : Nat) :
-    ∃ q, fingerprintsQuery table fromDate tp ms = some q ∧
-      (f ∈ q.eval re W tbl ↔ Selected re fromDate tp ms tbl f) := by
-  obtain ⟨cs, hcs, hlen, hmap⟩ := condsOf_spec re ms
-  refine ⟨⟨table, fromDate, tp, cs⟩, by simp [fingerprintsQuery, hcs], ?_⟩
+    ∃ q, fingerprintsQuery full table fromDate tp ms = some q ∧
+      (f ∈ q.eval re W tbl ↔ Selected re full fromDate tp ms tbl f) := by
+  obtain ⟨cs, hcs, hlen, hmap⟩ := condsOf_spec re (ms.map (asked full))
+  have hlen' : cs.length = ms.length := by simpa using hlen
+  refine ⟨⟨table, fromDate, tp, cs, ms.map (fun m => !acceptsEmpty full m)⟩, by simp [fingerprintsQuery, hcs], ?_⟩
+  have hadm : ∀ r, FpQuery.admits ⟨table, fromDate, tp, cs, ms.map (fun m => !acceptsEmpty full m)⟩ r = admissible fromDate tp r := by
+    intro r; simp [FpQuery.admits, admissible, fnOf_Ge, cmpBytes]
   unfold FpQuery.eval Selected
-  simp only [List.mem_filter, distinctFps, List.mem_eraseDups, List.mem_map]
-  -- rows kept by WHERE
-  have hany : ∀ r, cs.any (·.eval re r) = ms.any (rowSatisfies re · r) := by
-    intro r
-    have := congrArg (fun l => l.any id) (hmap r)
-    simpa [List.any_map] using this
-  have hrow : ∀ r, (FpQuery.whereHolds re ⟨table, fromDate, tp, cs⟩ r = true ↔
-      admissible fromDate tp r = true ∧ ∃ m ∈ ms, rowSatisfies re m r = true) := by
-    intro r
-    simp only [FpQuery.whereHolds, hany r, fnOf_Ge, cmpBytes, admissible]
-    simp [List.any_eq_true, and_assoc]
-  have hbits : ∀ (grp : List IdxRow), grp.map (fun r => cs.map (·.eval re r))
-      = grp.map (fun r => ms.map (rowSatisfies re · r)) := by
-    intro grp; apply List.map_congr_left; intro r _; exact hmap r
-  rw [hbits, hlen, havingConst_eq _ h63]
-  have hlenr : ∀ v ∈ (List.filter (fun r => r.fp == f)
-        (List.filter (FpQuery.whereHolds re ⟨table, fromDate, tp, cs⟩) tbl)).map
-        (fun r => ms.map (rowSatisfies re · r)), v.length = ms.length := by
-    intro v hvm; simp only [List.mem_map] at hvm; obtain ⟨r', _, rfl⟩ := hvm; simp
-  rw [having_all_bits_w W ms.length _ hlenr hW]
-  constructor
-  · rintro ⟨⟨r, ⟨hr, hw⟩, hf⟩, hb⟩
-    refine ⟨⟨r, hr, hf, (hrow r).mp hw⟩, ?_⟩
-    intro m hm
-    obtain ⟨i, hi, hmi⟩ := List.getElem_of_mem hm
-    obtain ⟨v, hvmem, hbit⟩ := hb i hi
-    simp only [List.mem_map, List.mem_filter, beq_iff_eq] at hvmem
-    obtain ⟨r', ⟨⟨hr', hw'⟩, hf'⟩, rfl⟩ := hvmem
-    rw [getD_map_sat, List.getElem?_eq_getElem hi, hmi] at hbit
-    exact ⟨r', hr', hf', ((hrow r').mp hw').1, hbit⟩
-  · rintro ⟨⟨r, hr, hf, hadm, hsat⟩, hall⟩
-    refine ⟨⟨r, ⟨hr, (hrow r).mpr ⟨hadm, hsat⟩⟩, hf⟩, ?_⟩
-    intro i hi
-    obtain ⟨r', hr', hf', hadm', hsat'⟩ := hall ms[i] (List.getElem_mem hi)
-    refine ⟨ms.map (rowSatisfies re · r'), ?_, ?_⟩
-    · simp only [List.mem_map, List.mem_filter, beq_iff_eq]
-      exact ⟨r', ⟨⟨hr', (hrow r').mpr ⟨hadm', ⟨ms[i], List.getElem_mem hi, hsat'⟩⟩⟩, hf'⟩, rfl⟩
-    · rw [getD_map_sat, List.getElem?_eq_getElem hi]
-      exact hsat'
+  by_cases hemp : cs.isEmpty = true
+  · have hms : ms = [] := List.eq_nil_of_length_eq_zero (by
+      have : cs.length = 0 := by simpa using hemp
+      omega)
+    subst hms
+    simp only [hemp, if_true, distinctFps, List.mem_eraseDups, List.mem_map, List.mem_filter, hadm]
+    constructor
+    · rintro ⟨r, ⟨hr, ha⟩, hf⟩
+      exact ⟨⟨r, hr, hf, ha⟩, (fun m hm => absurd hm List.not_mem_nil), (fun m hm => absurd hm List.not_mem_nil)⟩
+    · rintro ⟨⟨r, hr, hf, ha⟩, _⟩
+      exact ⟨r, ⟨hr, ha⟩, hf⟩
+  · have hemp' : cs.isEmpty = false := by simpa using hemp
+    simp only [hemp', Bool.false_eq_true, if_false]
+    have hreq63 : (ms.map (fun m => !acceptsEmpty full m)).length ≤ 63 := by simpa using h63
+    rw [mem_bitsetSelectGen W _ _ (ms.map (fun m => !acceptsEmpty full m)) _ _ _ tbl (by simpa [hlen'] using hW)
+      (by simp [hlen']) (by
+        simp only [FpQuery.useOr, requiredConst_eq _ hreq63]
+        cases h : (ms.map (fun m => !acceptsEmpty full m)).any id with
+        | false =>
+          have := (bits_eq_zero _).mpr h
+          simp [this]
+        | true =>
+          have : bits (ms.map (fun m => !acceptsEmpty full m)) ≠ 0 := by
+            intro h0; rw [(bits_eq_zero _).mp h0] at h; cases h
+          simp only [bne_iff_ne, ne_eq]
+          omega) (by
+        intro x
+        simp only [requiredConst_eq _ hreq63]
+        cases hx : x == bits (ms.map (fun m => !acceptsEmpty full m)) with
+        | true => have := eq_of_beq hx; subst this; simp
+        | false =>
+          have : x ≠ bits (ms.map (fun m => !acceptsEmpty full m)) := ne_of_beq_false hx
+          simp only [beq_eq_false_iff_ne, ne_eq]
+          omega) f]
+    simp only [hadm]
+    -- condition i on a row = the row satisfies the matcher asked for matcher i
+    have hcond : ∀ (i : Nat) (hi : i < ms.length) (hi' : i < (cs.map (fun (c : Cond) (r : IdxRow) => c.eval re r)).length) (r : IdxRow),
+        (cs.map (fun (c : Cond) (r : IdxRow) => c.eval re r))[i] r = rowSatisfies re (asked full ms[i]) r := by
+      intro i hi hi' r
+      have := congrArg (fun l => l[i]?) (hmap r)
+      have hic : i < cs.length := by omega
+      simp only [List.getElem?_map, List.getElem?_eq_getElem hic, List.getElem?_eq_getElem hi, Option.map_some] at this
+      simpa using this
+    have hreqi : ∀ (i : Nat) (hi : i < ms.length),
+        (ms.map (fun m => !acceptsEmpty full m)).getD i false = !acceptsEmpty full ms[i] := by
+      intro i hi
+      simp [List.getD, List.getElem?_map, List.getElem?_eq_getElem hi]
+    constructor
+    · rintro ⟨hrow, hall⟩
+      refine ⟨hrow, ?_, ?_⟩
+      · intro m hm hacc
+        obtain ⟨i, hi, rfl⟩ := List.getElem_of_mem hm
+        have hi' : i < (cs.map (fun (c : Cond) (r : IdxRow) => c.eval re r)).length := by simp; omega
+        obtain ⟨r, hr, hf, ha, hc⟩ := (hall i hi').mpr (by rw [hreqi i hi, hacc]; rfl)
+        rw [hcond i hi hi' r] at hc
+        simp only [asked, hacc] at hc
+        exact ⟨r, hr, hf, ha, hc⟩
+      · intro m hm hacc r hr hf ha hk
+        obtain ⟨i, hi, rfl⟩ := List.getElem_of_mem hm
+        have hi' : i < (cs.map (fun (c : Cond) (r : IdxRow) => c.eval re r)).length := by simp; omega
+        have hno := (hall i hi')
+        rw [hreqi i hi, hacc] at hno
+        cases hop : opHolds re ms[i].type r.val (matcherVal ms[i]) with
+        | true => rfl
+        | false =>
+          exfalso
+          have : (false = true) := hno.mp ⟨r, hr, hf, ha, by
+            rw [hcond i hi hi' r]
+            simp only [asked, hacc, if_true, rowSatisfies_inverse, hop, hk]
+            simp⟩
+          cases this
+    · rintro ⟨hrow, hpos, hneg⟩
+      refine ⟨hrow, ?_⟩
+      intro i hi'
+      have hi : i < ms.length := by simp at hi'; omega
+      rw [hreqi i hi]
+      cases hacc : acceptsEmpty full ms[i] with
+      | false =>
+        obtain ⟨r, hr, hf, ha, hc⟩ := hpos ms[i] (List.getElem_mem hi) hacc
+        simp only [Bool.not_false, iff_true]
+        refine ⟨r, hr, hf, ha, ?_⟩
+        rw [hcond i hi hi' r]
+        simp only [asked, hacc]
+        exact hc
+      | true =>
+        simp only [Bool.not_true, Bool.false_eq_true, iff_false]
+        rintro ⟨r, hr, hf, ha, hc⟩
+        rw [hcond i hi hi' r] at hc
+        simp only [asked, hacc, if_true, rowSatisfies_inverse, Bool.and_eq_true, beq_iff_eq, Bool.not_eq_true'] at hc
+        have := hneg ms[i] (List.getElem_mem hi) hacc r hr hf ha hc.1
+        rw [this] at hc
+        cases hc.2
 
 /-! ### from index rows to label sets -/
 
@@ -189,62 +295,84 @@ structure WellFormed (db : List Stored) : Prop where
   fps : (db.map (·.fp)).Nodup
   names : ∀ s ∈ db, (s.labels.map (·.1)).Nodup
 
-/-- when no matcher accepts the empty value, "every matcher is satisfied by an index row of f" is
-    Prometheus' "the label set of f satisfies every matcher" -/
+/-- "every matcher that rejects the empty value is satisfied by an index row of f, and no index row of f violates a
+    matcher that accepts it" is Prometheus' "the label set of f satisfies every matcher" (a missing label has the empty
+    value). A series must have an index row to be found at all: either some matcher rejects the empty value (the PromQL
+    parser insists on one in every selector) or every stored series carries a label (Prometheus stores no series with
+    an empty label set). -/
 theorem selected_iff_prom (search full : Bytes → Bytes → Bool)
     (hanch : ∀ p s, search (anchor p) s = full p s) (fromDate : Bytes) (tp : Int) (ms : List Matcher)
-    (hne : ms ≠ []) (hnoempty : ∀ m ∈ ms, opHolds full m.type [] m.val = false)
-    (db : List Stored) (wf : WellFormed db) (f : Nat) :
-    Selected search fromDate tp ms (indexRows db) f ↔
+    (db : List Stored) (wf : WellFormed db)
+    (hrow : (∃ m ∈ ms, opHolds full m.type [] m.val = false) ∨ (∀ s ∈ db, s.labels ≠ [])) (f : Nat) :
+    Selected search full fromDate tp ms (indexRows db) f ↔
       ∃ s ∈ db, s.fp = f ∧ admissibleS fromDate tp s = true ∧ promMatches full ms s = true := by
-  -- a satisfied matcher on a row of s is a satisfied matcher on the label set of s
-  have key : ∀ (s : Stored), s ∈ db → ∀ m ∈ ms,
-      ((∃ kv ∈ s.labels, rowSatisfies search m ⟨s.date, kv.1, kv.2, s.fp, s.type⟩ = true) ↔
-        opHolds full m.type (labelValue s.labels m.name) m.val = true) := by
-    intro s hs m hm
-    constructor
-    · rintro ⟨kv, hkv, hsat⟩
-      simp only [rowSatisfies, Bool.and_eq_true, beq_iff_eq] at hsat
-      obtain ⟨hk, hop⟩ := hsat
-      have hl : s.labels.lookup m.name = some kv.2 := by
-        apply lookup_of_mem (wf.names s hs)
-        rw [← hk]; exact hkv
-      rw [opHolds_anchor search full hanch] at hop
-      simpa [labelValue, hl] using hop
-    · intro hop
-      cases hl : s.labels.lookup m.name with
-      | none =>
-        simp only [labelValue, hl, Option.getD_none] at hop
-        rw [hnoempty m hm] at hop; cases hop
-      | some v =>
-        simp only [labelValue, hl, Option.getD_some] at hop
-        refine ⟨(m.name, v), mem_of_lookup hl, ?_⟩
-        simp only [rowSatisfies, Bool.and_eq_true, beq_iff_eq, true_and]
-        rw [opHolds_anchor search full hanch]; exact hop
   constructor
-  · rintro ⟨⟨r, hr, hf, hadm, _⟩, hall⟩
+  · rintro ⟨⟨r, hr, hf, hadm⟩, hpos, hneg⟩
     obtain ⟨s, hs, kv, hkv, rfl⟩ := mem_indexRows.mp hr
     refine ⟨s, hs, hf, by simpa [admissible, admissibleS] using hadm, ?_⟩
     simp only [promMatches, List.all_eq_true]
     intro m hm
-    obtain ⟨r', hr', hf', _, hsat'⟩ := hall m hm
-    obtain ⟨s', hs', kv', hkv', rfl⟩ := mem_indexRows.mp hr'
-    have : s' = s := eq_of_fp wf.fps hs' hs (by simp at hf hf'; omega)
-    subst this
-    exact (key s' hs' m hm).mp ⟨kv', hkv', hsat'⟩
+    cases hacc : acceptsEmpty full m with
+    | false =>
+      obtain ⟨r', hr', hf', _, hsat'⟩ := hpos m hm hacc
+      obtain ⟨s', hs', kv', hkv', rfl⟩ := mem_indexRows.mp hr'
+      have : s' = s := eq_of_fp wf.fps hs' hs (by simp at hf hf'; omega)
+      subst this
+      simp only [rowSatisfies, Bool.and_eq_true, beq_iff_eq] at hsat'
+      obtain ⟨hk, hop⟩ := hsat'
+      have hl : s'.labels.lookup m.name = some kv'.2 := by
+        apply lookup_of_mem (wf.names s' hs')
+        rw [← hk]; exact hkv'
+      rw [opHolds_anchor search full hanch] at hop
+      simpa [labelValue, hl] using hop
+    | true =>
+      cases hl : s.labels.lookup m.name with
+      | none =>
+        simp only [labelValue, hl, Option.getD_none]
+        rw [← acceptsEmpty_eq]; exact hacc
+      | some v =>
+        simp only [labelValue, hl, Option.getD_some]
+        have hmem : (m.name, v) ∈ s.labels := mem_of_lookup hl
+        have := hneg m hm hacc ⟨s.date, m.name, v, s.fp, s.type⟩
+          (mem_indexRows.mpr ⟨s, hs, (m.name, v), hmem, rfl⟩) hf (by simpa [admissible, admissibleS] using hadm) rfl
+        rw [opHolds_anchor search full hanch] at this
+        exact this
   · rintro ⟨s, hs, hf, hadm, hprom⟩
     simp only [promMatches, List.all_eq_true] at hprom
-    have hrows : ∀ m ∈ ms, ∃ r ∈ indexRows db, r.fp = f ∧ admissible fromDate tp r = true ∧
-        rowSatisfies search m r = true := by
-      intro m hm
-      obtain ⟨kv, hkv, hsat⟩ := (key s hs m hm).mpr (hprom m hm)
-      exact ⟨_, mem_indexRows.mpr ⟨s, hs, kv, hkv, rfl⟩, hf, by simpa [admissible, admissibleS] using hadm, hsat⟩
-    refine ⟨?_, hrows⟩
-    cases ms with
-    | nil => exact absurd rfl hne
-    | cons m0 ms' =>
-      obtain ⟨r, hr, hf', hadm', hsat⟩ := hrows m0 List.mem_cons_self
-      exact ⟨r, hr, hf', hadm', m0, List.mem_cons_self, hsat⟩
+    have hadm' : ∀ kv : Bytes × Bytes, admissible fromDate tp ⟨s.date, kv.1, kv.2, s.fp, s.type⟩ = true := by
+      intro kv; simpa [admissible, admissibleS] using hadm
+    have hpos : ∀ m ∈ ms, acceptsEmpty full m = false →
+        ∃ r ∈ indexRows db, r.fp = f ∧ admissible fromDate tp r = true ∧ rowSatisfies search m r = true := by
+      intro m hm hacc
+      have hop := hprom m hm
+      cases hl : s.labels.lookup m.name with
+      | none =>
+        simp only [labelValue, hl, Option.getD_none] at hop
+        rw [← acceptsEmpty_eq, hacc] at hop; cases hop
+      | some v =>
+        simp only [labelValue, hl, Option.getD_some] at hop
+        refine ⟨_, mem_indexRows.mpr ⟨s, hs, (m.name, v), mem_of_lookup hl, rfl⟩, hf, hadm' _, ?_⟩
+        simp only [rowSatisfies, Bool.and_eq_true, beq_iff_eq, true_and]
+        rw [opHolds_anchor search full hanch]; exact hop
+    refine ⟨?_, hpos, ?_⟩
+    · rcases hrow with ⟨m, hm, hne⟩ | hlab
+      · obtain ⟨r, hr, hf', ha, _⟩ := hpos m hm (by rw [acceptsEmpty_eq]; exact hne)
+        exact ⟨r, hr, hf', ha⟩
+      · cases hls : s.labels with
+        | nil => exact absurd hls (hlab s hs)
+        | cons kv rest =>
+          exact ⟨_, mem_indexRows.mpr ⟨s, hs, kv, by rw [hls]; exact List.mem_cons_self, rfl⟩, hf, hadm' _⟩
+    · intro m hm _ r hr hf' _ hk
+      obtain ⟨s', hs', kv', hkv', rfl⟩ := mem_indexRows.mp hr
+      have : s' = s := eq_of_fp wf.fps hs' hs (by simp at hf hf'; omega)
+      subst this
+      have hl : s'.labels.lookup m.name = some kv'.2 := by
+        apply lookup_of_mem (wf.names s' hs')
+        simp only at hk
+        rw [← hk]; exact hkv'
+      have hop := hprom m hm
+      simp only [labelValue, hl, Option.getD_some] at hop
+      rw [opHolds_anchor search full hanch]; exact hop
 
 /-! ### the raw-sample scan -/
 theorem scanLower_ge : Gen.PromSelect.scanLower = ">=" := by decide
